@@ -35,7 +35,7 @@ def evaluate(e, env, bits=64):
 def _evaluate(e, env, bits=64):
     k = e[0]
     key = None
-    if k in ("param", "field", "var", "call", "index", "len", "static"):
+    if k in ("param", "field", "var", "call", "index", "len", "static", "discr", "variant"):
         key = leaf_key(e)
         if key in env:
             return env[key]
@@ -90,7 +90,7 @@ def _evaluate(e, env, bits=64):
         raise Uneval(op)
     if k == "len":
         return seq_len(e[1], env, bits)
-    if k == "call" and e[1].rsplit("::", 1)[-1] == "is_empty" and len(e[2]) == 1:
+    if k == "call" and e[1].rsplit("::", 1)[-1] == "is_empty" and len(e[2]) == 1 and e[1].startswith(("std::", "core::", "alloc::", "<std::")):
         return int(seq_len(e[2][0], env, bits) == 0)
     if k == "select":
         c = evaluate(e[1], env, bits)
@@ -119,6 +119,25 @@ def _evaluate(e, env, bits=64):
         fnk = "@fn:" + name
         if fnk in env:
             return env[fnk](*[evaluate(a, env, bits) for a in e[2]])
+        prog = env.get("@prog")
+        if prog is not None and e[1] in prog.fns:
+            # branchy in-crate helper: evaluate its if-converted return expression with the parameters bound
+            cf = prog.fns[e[1]]
+            cache = env.setdefault("@retexpr", {})
+            if e[1] not in cache:
+                s_ = sym.Sym(prog, cf)
+                rets = [b.idx for b in cf.blocks if b.term[0] == "return" and not b.cleanup]
+                cache[e[1]] = s_.at(rets[0]).local(0) if rets else ("unknown",)
+            cenv = dict(env)
+            cenv.pop("@cache", None)
+            for i, a in enumerate(e[2]):
+                nm = cf.local_name(i + 1)
+                if nm and nm != "self":
+                    try:
+                        cenv[nm] = evaluate(a, env, bits)
+                    except Uneval:
+                        pass
+            return evaluate(cache[e[1]], cenv, bits)
         args = [evaluate(a, env, bits) for a in e[2]]
         if name == "min":
             return min(args)
@@ -207,7 +226,7 @@ def seq_len(e, env, bits=64):
 def leaves(e):
     out = {}
     for x in sym.walk(e):
-        if x[0] in ("param", "field", "var", "index", "len", "static") or (x[0] == "call" and x[1].rsplit("::", 1)[-1] not in (
+        if x[0] in ("param", "field", "var", "index", "len", "static", "discr") or (x[0] == "call" and x[1].rsplit("::", 1)[-1] not in (
                 "min", "max", "leading_zeros", "trailing_zeros", "wrapping_mul", "wrapping_add", "wrapping_sub", "rotate_left", "div_ceil",
                 "sqrt", "ceil", "floor", "ln", "log2", "powf", "exp2", "saturating_sub")):
             out[leaf_key(x)] = x
